@@ -615,4 +615,68 @@ def rtfFlushPages (T : Tables) : List Str → List Str
   | [last] => let p := rtfPageText T last; if p ≠ [] then [p] else []
   | p :: q :: r => (p :: q :: r).map (rtfPageText T)
 
+/-! ### PPTX: a `p:sldId` entry as the source writes it.  `numId` is the numeric `id` attribute (the slide's
+creation id, kept when slides are moved); `_compute_slide_order` never reads it: the show order is the
+document order of the entries. -/
+
+structure SldId where
+  numId : Option Str := none    -- the `id` attribute text (none = attribute missing)
+  rid : Option Str := none      -- the `r:id` attribute (none = attribute missing)
+  deriving DecidableEq, Repr
+
+/-- `_compute_slide_order` on full `p:sldId` entries -/
+def slideOrderE (rels : List Rel) (es : List SldId) : List Str := slideOrder rels (es.map (·.rid))
+
+/-- what one `p:sldId` contributes: its relationship target, if `r:id` is present, non-empty and a slide relationship -/
+def sldResolve (rels : List Rel) (o : Option Str) : Option Str :=
+  match o with
+  | some rid => if rid ≠ [] then (relsMap rels).lookup rid else none
+  | none => none
+
+/-! ### RTF: the scanner of `_strip_rtf_full_with_pages` seen as a stream of events.
+A character event carries one UTF-16 code unit or code point as the scanner appends it (`chr(int(N) & 0xFFFF)` for
+`\uN`, `chr(int(hh, 16))` for `\'hh`, the literal character otherwise — a literal may be beyond the BMP); a break
+event is `\page` / `\sbkpage`.  Each page has its own buffer, surrogate pairs are combined *per page buffer*, then
+the page is trimmed and its blank runs collapsed. -/
+
+inductive RtfEv where
+  | ch (c : Nat)
+  | brk
+  deriving DecidableEq, Repr
+
+def isHighSur (c : Nat) : Bool := 0xD800 ≤ c && c ≤ 0xDBFF
+def isLowSur (c : Nat) : Bool := 0xDC00 ≤ c && c ≤ 0xDFFF
+def isSur (c : Nat) : Bool := 0xD800 ≤ c && c ≤ 0xDFFF
+
+/-- `_combine_surrogates`: `text.encode("utf-16-le", "surrogatepass").decode("utf-16-le", "replace")` on code
+points: a high surrogate directly followed by a low one is the character they encode, any other surrogate is U+FFFD -/
+def combineSur : List Nat → List Nat
+  | [] => []
+  | [c] => if isSur c then [0xFFFD] else [c]
+  | h :: l :: r =>
+    if isHighSur h && isLowSur l then (0x10000 + (h - 0xD800) * 0x400 + (l - 0xDC00)) :: combineSur r
+    else (if isSur h then 0xFFFD else h) :: combineSur (l :: r)
+
+/-- the per-page buffers: k breaks give k + 1 pieces -/
+def rtfPiecesAux : List RtfEv → List Nat → List (List Nat)
+  | [], cur => [cur.reverse]
+  | .ch c :: r, cur => rtfPiecesAux r (c :: cur)
+  | .brk :: r, cur => cur.reverse :: rtfPiecesAux r []
+def rtfPieces (evs : List RtfEv) : List (List Nat) := rtfPiecesAux evs []
+
+/-- all characters of the body, breaks removed (`result`) -/
+def rtfChars : List RtfEv → List Nat
+  | [] => []
+  | .ch c :: r => c :: rtfChars r
+  | .brk :: r => rtfChars r
+
+def codesToStr (l : List Nat) : Str := l.map Char.ofNat
+
+/-- `self.pages` after `_strip_rtf_full_with_pages` -/
+def rtfExtractPages (T : Tables) (evs : List RtfEv) : List Str :=
+  rtfFlushPages T ((rtfPieces evs).map (fun p => codesToStr (combineSur p)))
+
+/-- the value `_strip_rtf_full_with_pages` returns -/
+def rtfExtractText (evs : List RtfEv) : List Nat := combineSur (rtfChars evs)
+
 end S2T.Units
